@@ -369,8 +369,12 @@ type registryHandler interface {
 	registryOverflow()
 }
 type registry struct {
-	array   []LValue
-	top     int
+	array []LValue
+	top   int
+	// limit is the size the registry enforces: an operation may use the cells [0, limit). It is the length of array,
+	// except after raiseError had to make room for its message on a full registry: that extra cell is not given to programs,
+	// so that the configured size stays the limit however many errors a state has raised.
+	limit   int
 	growBy  int
 	maxSize int
 	alloc   *allocator
@@ -378,11 +382,11 @@ type registry struct {
 }
 
 func newRegistry(handler registryHandler, initialSize int, growBy int, maxSize int, alloc *allocator) *registry {
-	return &registry{make([]LValue, initialSize), 0, growBy, maxSize, alloc, handler}
+	return &registry{make([]LValue, initialSize), 0, initialSize, growBy, maxSize, alloc, handler}
 }
 
 func (rg *registry) checkSize(requiredSize int) { // +inline-start
-	if requiredSize > cap(rg.array) {
+	if requiredSize > rg.limit {
 		rg.resize(requiredSize)
 	}
 } // +inline-end
@@ -397,12 +401,19 @@ func (rg *registry) resize(requiredSize int) { // +inline-start
 		return
 	}
 	rg.forceResize(newSize)
+	rg.limit = newSize
 } // +inline-end
 
 func (rg *registry) forceResize(newSize int) {
 	newSlice := make([]LValue, newSize)
 	copy(newSlice, rg.array[:rg.top]) // should we copy the area beyond top? there shouldn't be any valid values there so it shouldn't be necessary.
 	rg.array = newSlice
+}
+
+// pushRaw stores v above the top without the size check (the caller has made room): the message of an error.
+func (rg *registry) pushRaw(v LValue) {
+	rg.array[rg.top] = v
+	rg.top++
 }
 
 func (rg *registry) SetTop(topi int) { // +inline-start
@@ -647,10 +658,11 @@ func (ls *LState) raiseError(level int, format string, args ...interface{}) {
 		message = fmt.Sprintf("%v %v", ls.where(level-1, true), message)
 	}
 	if ls.reg.IsFull() {
-		// if the registry is full then it won't be possible to push a value, in this case, force a larger size
+		// if the registry is full then it won't be possible to push a value, in this case, force a larger array
+		// (the limit enforced on programs stays as it is)
 		ls.reg.forceResize(ls.reg.Top() + 1)
 	}
-	ls.reg.Push(LString(message))
+	ls.reg.pushRaw(LString(message))
 	ls.Panic(ls)
 }
 
